@@ -129,6 +129,8 @@ def check(ctx, replay=None):
     work += [{"n": n, "flags": fl, "seed": ctx.seed + n, "spawns": 2, "block": True} for n in (1, 4, 16) for fl in (1, 3)]
     # the loading thread loaded the same policy before, without thread-sync: the recorded load hands the kernel a program it has seen
     work += [{"n": n, "flags": fl, "seed": ctx.seed + n, "spawns": 2, "preload": True, "preload_flags": pf} for n in (1, 4, 16) for fl in (1, 3) for pf in (0, 2)]
+    # the environment reports an old kernel release (UNAME26 personality): the kernel's seccomp(2) is the same, so is what is demanded
+    work += [{"n": n, "flags": fl, "seed": ctx.seed * 7 + n, "spawns": 2, "uname26": True} for n in (2, 8, 32) for fl in (1, 3, 0, 2)]
     # an earlier load of ANOTHER policy, with or without thread-sync: whether the recorded load reaches the other threads depends on its own flags only
     work += [{"n": n, "flags": fl, "seed": ctx.seed + n, "spawns": 2, "preload": True, "preload_other": True, "preload_flags": pf}
              for n in (2, 8) for fl in (0, 2, 1, 3) for pf in (1, 3, 0)]
